@@ -122,6 +122,24 @@ theorem F1.setNow (g : Gw) (t : Nat) : F1 0 g (g.setNow t) := F1.of_eq rfl rfl
 theorem F1.clearBuffer (g : Gw) : F1 0 g g.clearBuffer := F1.of_eq rfl rfl
 theorem F1.cancelSleepPinger (g : Gw) : F1 0 g g.cancelSleepPinger := F1.of_eq rfl rfl
 theorem F1.startSleepPinger (g : Gw) (d : UInt16) : F1 0 g (g.startSleepPinger d) := F1.of_eq rfl rfl
+theorem F1.armSleepPinger (g : Gw) (d : UInt16) : F1 0 g (g.armSleepPinger d) := by
+  unfold Gw.armSleepPinger
+  split
+  · exact F1.cancelSleepPinger g
+  · exact (F1.cancelSleepPinger g).trans (F1.startSleepPinger _ _)
+theorem F1.pingBroker (g : Gw) : F1 0 g g.pingBroker := by
+  unfold Gw.pingBroker
+  have h0 : F1 0 g ({ g with ownPings := g.ownPings + 1 } : Gw) := F1.of_eq rfl rfl
+  exact h0.trans (F1.mqttSend _ _ rfl)
+theorem F1.keepBrokerAlive (g : Gw) : F1 0 g g.keepBrokerAlive := by
+  unfold Gw.keepBrokerAlive
+  split
+  · exact F1.refl g
+  · split
+    · split
+      · exact F1.refl g
+      · exact F1.pingBroker g
+    · exact F1.pingBroker g
 
 theorem F1.newTopicId (g : Gw) : F1 0 g g.newTopicId.2 := by
   refine F1.of_eq (newTopicId_outs g) ?_
@@ -361,16 +379,13 @@ theorem F1.handleConnect (g : Gw) (will clean : Bool) (dur : UInt16) (cid : Byte
 theorem F1.handlePingreq (g : Gw) : F1 0 g g.handlePingreq := by
   unfold Gw.handlePingreq
   split
-  · exact (((F1.setSt g _).trans (F1.flushBuffer _)).trans (F1.snSend _ _ _)).trans (F1.setSt _ _)
+  · exact ((((F1.setSt g _).trans (F1.flushBuffer _)).trans (F1.snSend _ _ _)).trans (F1.setSt _ _)).trans (F1.armSleepPinger _ _)
   · exact F1.mqttSend g _ rfl
 
 theorem F1.handleSleep (g : Gw) (d : UInt16) : F1 0 g (g.handleSleep d) := by
   unfold Gw.handleSleep
-  have h1 : F1 0 g (g.cancelSleepPinger.maybeSleepPinger d) := by
-    unfold Gw.maybeSleepPinger
-    split
-    · exact (F1.cancelSleepPinger g).trans (F1.startSleepPinger _ _)
-    · exact F1.cancelSleepPinger g
+  have h0 : F1 0 g ({ g with sleepDur := d } : Gw) := F1.of_eq rfl rfl
+  have h1 : F1 0 g (({ g with sleepDur := d } : Gw).armSleepPinger d) := h0.trans (F1.armSleepPinger _ _)
   have h2 : ∀ x : Gw, F1 0 x x.clearBufferUnlessAsleep := by
     intro x; unfold Gw.clearBufferUnlessAsleep; split
     · exact F1.clearBuffer x
@@ -431,7 +446,7 @@ theorem F1.firePing (g : Gw) (i : Nat) : F1 0 g (g.firePing i) := by
   unfold Gw.firePing
   have h0 : F1 0 g ({ g with pingers := g.pingers.mapIdx (fun j (p : Pinger) =>
       if j = i then { p with next := p.next + p.period } else p) } : Gw) := F1.of_eq rfl rfl
-  exact h0.trans (F1.mqttSend _ _ rfl)
+  exact h0.trans (F1.pingBroker _)
 
 theorem F1.fireDue (g : Gw) (d : Due) : F1 0 g (g.fireDue d) := by
   unfold Gw.fireDue
